@@ -85,12 +85,15 @@ PROPERTIES = {
         note='Trusted: Kani 0.68/CBMC; anyhow shim; merge_names instantiated at &JavaStr names from a 3-entry menu (the function only clones, compares and tests emptiness); Javadoc/T = u8.',
         out=['quill/src/action/diff_mappings.rs zip_map_combination (IndexMap)', 'merge_namespaces', 'Mappings::merge traversal']),
     'C03': dict(
-        level='other', verus=[], kani=[], enum=['maps'],
-        technique=ENUM_TECH,
-        explanation='Bounded stand-in for the Tiny v2 reader/writer: all 1517 mapping sets of the stated universe (2-4 namespaces, missing names, inner class names, unicode names, empty/one-line/multi-line comments, parameters without source names), each rendered in two line orders.',
+        level='other', verus=['tinyesc'], kani=[], enum=['maps'],
+        technique=ENUM_TECH + '; the comment escaping (escape / unescape) additionally by ' + VERUS_TECH,
+        explanation='The property as a whole is only covered by the bounded stand-in; the escaping of comments -- the only free text of the format -- is proved unboundedly. Bounded stand-in for the Tiny v2 reader/writer: all 1517 mapping sets of the stated universe (2-4 namespaces, missing names, inner class names, unicode names, empty/one-line/multi-line comments, parameters without source names), each rendered in two line orders.',
         claim='Bounded (not proved): reading the text of a mapping set yields exactly the rendered entries (none lost, merged or re-parented), writing is independent of insertion order and sorted, an independent parser reads the written text back to the same set, write(read(write(M))) == write(M). '
+              'Unbounded proof for escape / unescape only, for all strings: escape(s) is the escaping the format names (line break -> \\n, backslash -> \\\\), holds no line break, and unescape gives s back; unescape is the left-to-right decoder; '
+              'lemma unesc(esc(s)) == s for every s. '
               'Not covered: sets only constructible through pub fields (top-level javadoc), inputs beyond the bound.',
-        note='Bounded stand-in, NOT a proof: the operation works on IndexMap<JavaString,..> trees through nested closures and text I/O (outside Verus; CBMC gave no verdict in 10 min on one IndexMap insertion chain), so the real code is run natively on every mapping set of a stated small universe and compared with a model-level oracle written from the property statement (kx/enum/maps.rs: own model, own Tiny v2 renderer/parser). Inputs beyond the bound are not covered.',
+        note='Bounded stand-in, NOT a proof: the operation works on IndexMap<JavaString,..> trees through nested closures and text I/O (outside Verus; CBMC gave no verdict in 10 min on one IndexMap insertion chain), so the real code is run natively on every mapping set of a stated small universe and compared with a model-level oracle written from the property statement (kx/enum/maps.rs: own model, own Tiny v2 renderer/parser). Inputs beyond the bound are not covered. '
+             'Trusted for the proved part: Verus+Z3; String / str / Chars modelled as a vector of chars, str::replace(char, &str) by a verified mirror, string literals and `while let` rewritten by rule (unit docstring).',
         out=['quill/src/lines.rs WithMoreIdentIter on malformed indentation', 'inputs beyond the bound']),
     'C10': dict(
         level='other', verus=[], kani=[], enum=['maps', 'dummydiff'],
@@ -170,7 +173,7 @@ PROPERTIES = {
              'Bounded stand-in for the name predicates and as a second opinion on the parsers: native enumeration against an independent oracle (kx/enum).',
         out=['duke/src/tree/mod.rs names::is_valid_* (assumed / bounded only)', 'duke/src/tree/class.rs, field.rs, method.rs check_valid wrappers', 'unicode names beyond the bounded alphabet', 'signatures (check_valid accepts everything)']),
     'C16': dict(
-        level='proof', verus=['rlabels', 'cwrite', 'wjump', 'wpool', 'wencode', 'wattrs', 'wtypes', 'wannot', 'wput', 'wfrom', 'rskip', 'rbranch', 'rscan', 'rpool', 'rdecode', 'rframes', 'rattrs', 'rtables', 'raccept', 'rtree', 'rarms', 'rtypes', 'rpoolres', 'rannot', 'aaccept', 'abuild', 'adiff', 'scope', 'c20len', 'desc', 'inner', 'mergeord'], kani=[], enum=['desc', 'mapdesc', 'cls', 'enigma', 'nestio', 'tinyio'],
+        level='proof', verus=['rlabels', 'cwrite', 'wjump', 'wpool', 'wencode', 'wattrs', 'wtypes', 'wannot', 'wput', 'wfrom', 'rskip', 'rbranch', 'rscan', 'rpool', 'rdecode', 'rframes', 'rattrs', 'rtables', 'raccept', 'rtree', 'rarms', 'rtypes', 'rpoolres', 'rannot', 'aaccept', 'abuild', 'adiff', 'scope', 'c20len', 'desc', 'inner', 'mergeord', 'tinyesc'], kani=[], enum=['desc', 'mapdesc', 'cls', 'enigma', 'nestio', 'tinyio'],
         technique=VERUS_TECH + ': implicit safety obligations (overflow, index, unwrap, unreachable, termination)',
         claim='Unbounded proof of panic-freedom and termination for every function extracted for the other properties (Verus generates no-overflow, in-bounds, no-failing-unwrap, unreachable!() unreachable, decreases obligations for each). '
               'This includes the descriptor parsers (read_field_type, the three parse functions, get_arguments_size) on arbitrary text. Partial: the line-oriented text parsers built on BufRead are outside the verifier and not covered.',
